@@ -1138,7 +1138,9 @@ struct aws_byte_cursor aws_byte_cursor_advance_nospec(struct aws_byte_cursor *co
 
     struct aws_byte_cursor rv;
 
-    if (len <= cursor->len && len <= (SIZE_MAX >> 1) && cursor->len <= (SIZE_MAX >> 1)) {
+    /* cursor->len + 1 is the bound handed to aws_nospec_mask below, which yields 0 for bounds above SIZE_MAX / 2:
+     * a cursor of exactly SIZE_MAX / 2 bytes has to be refused here, before the cursor is touched */
+    if (len <= cursor->len && len <= (SIZE_MAX >> 1) && cursor->len < (SIZE_MAX >> 1)) {
         /*
          * If we're speculating past a failed bounds check, null out the pointer. This ensures
          * that we don't try to read past the end of the buffer and leak information about other
